@@ -155,6 +155,8 @@ inductive R where
       -- a switch: `pre`, then (when the transaction of the construction ends) the first selection, `mid` (at least a
       -- collection) and `atClose`; `post`
   | hints (l : List (Nat × Int))        -- value oracle (driver-internal line): current values of cells
+  | fired (l : List Nat)                -- … and which `once` streams of S have let their event through
+  | once (l : List GOp) (env : Env) (n a sid : Nat)   -- a `once` node `n` on `a`, number `sid` in the oracle
   | quiet (l : List GOp)                -- run these; the answer of the line is not compared (`-`)
   | open_ | close                       -- `begin` / `end`
   | skip                                -- the harness answers `skip`
@@ -266,6 +268,15 @@ def compileRaw (e : Env) (next : Nat) (ws : List String) : R :=
   | ["mapto", x, s, _] => unary e next "Stream::map" x s
   | ["filter", x, s, _] => unary e next "Stream::filter" x s
   | ["once", x, s] => unary e next "Stream::once" x s
+  | ["once", x, s, sid] =>
+    -- `once x s @id` (the driver names the stream in the oracle): the node detaches from `s` when it has fired
+    match e.find x, (e.find s).bind streamRef, (if sid.startsWith "@" then (sid.drop 1).toString.toNat? else none) with
+    | none, some (acq, a), some id =>
+      let b : B := { next := next, ops := acq }
+      let (b, n) := b.node "Stream::once" [a, a]
+      .once (b.emit [.dec a, .eot]).ops (e.put x (.stream n)) n a id
+    | _, _, _ => .skip
+  | "oncedone" :: ids => .fired (ids.filterMap String.toNat?)
   | ["filteropt", x, s, _] =>
     match e.find x, (e.find s).bind streamRef with
     | none, some (acq, a) =>
@@ -593,6 +604,8 @@ structure PSt where
   hints : List (Nat × Int) := []        -- value oracle: what the cells are worth after the current line
   pend : List GOp := []                 -- what the closures queued for the end of the open transaction let go of
   held : List (Nat × Nat) := []         -- (owner, target): handles owned by Rust values the collector cannot see into
+  onces : List (Nat × Nat × Nat) := []  -- (node, source, number in the oracle) of the `once` nodes still attached
+  done : List Nat := []                 -- oracle: the `once` streams that have fired
 
 /-- apply one collector operation; an inapplicable one is a bug of the recipe: flag it -/
 def applyE (x : GcScript.St × Bool) (o : Op) : GcScript.St × Bool :=
@@ -725,6 +738,22 @@ def rewireAll (p : PSt) : PSt :=
     (y, acc.2 ++ [r])) (((p.gs, p.err), p.held), [])
   { p with gs := y.1.1, err := y.1.2, held := y.2, sw := sw }
 
+/-- `once` detaches from its source when it has let its event through (`pre_post` of that transaction): it gives up the
+    dependency edge (the handle its closure captured stays) -/
+def detachAll (p : PSt) : PSt :=
+  let (y, left) := p.onces.foldl (fun (acc : HSt × List (Nat × Nat × Nat)) o =>
+    let (n, a, sid) := o
+    let y := acc.1
+    let nd := y.1.1.g.node n
+    if !p.done.contains sid then (y, acc.2 ++ [o]) else
+    if nd.freed || nd.rc == 0 then (y, acc.2) else
+    match pathTo y.1.1 n with
+    | some path =>
+      let ops := chainOps path ++ [GOp.cut n a] ++ (path.drop 1).reverse.map GOp.dec
+      (ops.foldl (runOpH p.kinds 1) y, acc.2)
+    | none => (y, acc.2)) (((p.gs, p.err), p.held), [])
+  { p with gs := y.1.1, err := y.1.2, held := y.2, onces := left }
+
 def dump (p : PSt) : String :=
   let g := p.gs.g
   let live := (List.range g.nextId).filter fun i => !(g.node i).freed
@@ -823,14 +852,19 @@ def step (p : PSt) (line : String) : PSt × String :=
     let p := if balanced p then p else { p with err := true }
     (p, if p.err then "struct-error" else "ok")
   | .hints l => ({ p with hints := l }, "-")
-  | .quiet l => (runG (if p.depth = 0 then rewireAll p else p) l, "-")
+  | .fired l => ({ p with done := l }, "-")
+  | .once l env n a sid =>
+    let p := runG { p with env := env, onces := p.onces ++ [(n, a, sid)] } l
+    let p := if balanced p then p else { p with err := true }
+    (p, if p.err then "struct-error" else "ok")
+  | .quiet l => (runG (if p.depth = 0 then detachAll (rewireAll p) else p) l, "-")
   | .open_ => ({ p with depth := p.depth + 1 }, "ok")
   | .close =>
     if p.depth = 0 then (p, "bad-op") else
     let p := { p with depth := p.depth - 1 }
     let p := if p.depth = 0 then
         let p := runG p p.pend
-        rewireAll { p with pend := [], env := p.env.filter fun kv => match kv.2 with | .temps _ => false | _ => true }
+        detachAll (rewireAll { p with pend := [], env := p.env.filter fun kv => match kv.2 with | .temps _ => false | _ => true })
       else p
     let p := runG p [.eot]
     (p, if p.err then "struct-error" else "ok")
